@@ -485,9 +485,22 @@ fn rules_probe(c: &mut Ctx, class: &str, text: &str, origin: &str) {
             if let Some(e) = s.get_rules_engine() {
                 for ip in ["10.1.2.3", "203.0.113.9", "2001:db8::1"] {
                     let ip: std::net::IpAddr = ip.parse().unwrap();
-                    let rnds: [Option<&[u8]>; 4] = [None, Some(&[]), Some(&[0xaa]), Some(&[0xa5, 0xb5, 0xff, 0x00])];
+                    let rnds: [Option<&[u8]>; 5] = [None, Some(&[]), Some(&[0xaa]), Some(&[0xa5, 0xb5, 0xff, 0x00]), Some(&[0xaa; 32])];
                     for rnd in rnds {
                         let _ = e.evaluate(&ip, rnd);
+                    }
+                    // ... and full-length randoms that AGREE with each prefix written in the file (a rule is
+                    // evaluated to its end only for the clients it is aimed at)
+                    for line in text.lines() {
+                        let Some(v) = line.trim().strip_prefix("client_random_prefix") else { continue };
+                        let v = v.trim_start_matches(|ch: char| ch == ' ' || ch == '=').trim().trim_matches('"');
+                        let hexpart = v.split('/').next().unwrap_or("");
+                        let hb = hexpart.as_bytes();
+                        let mut bytes: Vec<u8> = (0..hb.len() / 2).filter_map(|i| std::str::from_utf8(&hb[2 * i..2 * i + 2]).ok().and_then(|x| u8::from_str_radix(x, 16).ok())).collect();
+                        bytes.resize(32, 0);
+                        let _ = e.evaluate(&ip, Some(&bytes));
+                        let ones = vec![0xffu8; 32];
+                        let _ = e.evaluate(&ip, Some(&ones));
                     }
                 }
             }
